@@ -109,6 +109,7 @@ package reconciler
 //@   maypanic
 //@   requires incr != nil && incr.retries != nil && incr.retries.queue != nil && incr.retries.revQueue != nil
 //@   atcall (*incremental).processSingle@1 requires @not-before-retry-time ok && !tAfter(*item.retryAt, *now)
+//@   atcall (*incremental).processSingle@1 requires @retries-the-queued-version-at-its-queued-revision $2 == txn && $4 == item.rev && $5 == item.delete
 //@   loop 1 invariant incr.retries != nil && incr.retries.queue != nil && incr.retries.revQueue != nil
 //@   ensures @reports-the-queue-low-watermark (result == 0 ==> len(incr.retries.revQueue.items) == 0 || incr.retries.revQueue.items[0].origRev == 0) && (result != 0 ==> len(incr.retries.revQueue.items) > 0 && result == incr.retries.revQueue.items[0].origRev)
 
